@@ -27,8 +27,8 @@ import (
 
 type conflictCase struct {
 	Users  int      `json:"users"`
-	BReply string   `json:"b_reply"`  // null | nulls | string | shorter | objects
-	BErr   bool     `json:"b_errors"` // B's reply comes with a GraphQL error list
+	BReply string   `json:"b_reply"`   // null | nulls | string | shorter | objects
+	BErr   bool     `json:"b_errors"`  // B's reply comes with a GraphQL error list
 	CKinds []string `json:"c_replies"` // per user: ok | partial | transport | node-null
 	CLate  []bool   `json:"c_after_b"` // per user: the dependent call answers only after B has
 	Stall  int      `json:"collector_stall_ms,omitempty"`
